@@ -87,6 +87,10 @@ REF_PROGRAMS = {
     "activated-flow-finished-then-activated-again": "flow g\n  match E1()\n  send Pong()\n  match E2()\n\nflow a1\n  activate g\n  match E2()\n\nflow main\n  start a1\n  match E3()\n  activate g\n  send Again()\n  match Never()\n",
     # two activators of one flow, both deactivate it (one after the other); idle time afterwards
     "two-activators-deactivate": "flow helper\n  match E1()\n  send Tock()\n\nflow b\n  activate helper\n  match E3()\n  deactivate helper\n  match Never()\n\nflow main\n  activate helper\n  start b\n  match E2()\n  deactivate helper\n  match Never()\n",
+    # a request naming a flow whose only instance ended long ago: whether it counts as handled (no UnhandledEvent)
+    # must not depend on the clean-up having discarded the ended instance
+    "stop-request-for-an-ended-flow": "flow helper\n  match E1()\n\nflow watcher\n  match UnhandledEvent(event=\"StopFlow\")\n  send Nobody()\n\nflow main\n  activate watcher\n  start helper\n  match E2()\n  send StopFlow(flow_id=\"helper\")\n  match Never()\n",
+    "finish-request-for-an-ended-flow": "flow helper\n  match E1()\n\nflow watcher\n  match UnhandledEvent(event=\"FinishFlow\")\n  send Nobody()\n\nflow main\n  activate watcher\n  start helper\n  match E2()\n  send FinishFlow(flow_id=\"helper\")\n  match Never()\n",
     "await-then-finish": "flow c\n  match E1()\n  match E2()\n\nflow d\n  match E1()\n\nflow main\n  start c\n  await d\n  send Echo()\n  match E3()\n  send Echo2()\n  match Never()\n",
 }
 
